@@ -25,6 +25,28 @@ theorem pyGetAll_lt (dims : List Nat) (nn td : List Nat)
           · rw [List.getElem?_eq_none (by omega)] at h1; simp at h1
         · exact ih w h2 t ht
 
+/-- `dims[t]` succeeded for every target: none lies below `-len(dims)` -/
+theorem pyGetAll_ge (dims : List Nat) (ts : List Int) (td : List Nat) (h : pyGetAll dims ts = some td) :
+    ts.any (fun t => decide (t < -(dims.length : Int))) = false := by
+  induction ts generalizing td with
+  | nil => rfl
+  | cons a as ih =>
+    simp only [pyGetAll] at h
+    cases h1 : pyGet dims a with
+    | none => simp [h1] at h
+    | some v =>
+      cases h2 : pyGetAll dims as with
+      | none => simp [h1, h2] at h
+      | some w =>
+        simp only [List.any_cons, ih w h2, Bool.or_false, decide_eq_false_iff_not, Int.not_lt]
+        unfold pyGet at h1
+        by_cases h0 : 0 ≤ a
+        · omega
+        · simp only [h0, ↓reduceIte] at h1
+          by_cases h3 : 0 ≤ (dims.length : Int) + a
+          · omega
+          · simp [h3] at h1
+
 /-- the rest positions of a register of length `N` never reach `dims.length = N` -/
 theorem restPos_any_false (N : Nat) (nn : List Nat) : (restPos N nn).any (fun i => N ≤ i) = false := by
   rw [List.any_eq_false]
@@ -66,13 +88,15 @@ theorem expandOne_ok (N : Nat) (dims : List Nat) (ts : List Int) (opL opR reg nn
   have h5 := Decidable.not_not.mp h5
   subst h5
   unfold buildChecks at hb
+  by_cases h9 : ts.any (fun t => decide (t < -(N : Int))) = true
+  · simp [h9] at hb
   by_cases h6 : (restPos N (nonneg ts)).length > N - ts.length
-  · simp [h6] at hb
+  · simp [h9, h6] at hb
   by_cases h7 : (restPos N (nonneg ts)).any (fun i => decide (dims.length ≤ i)) = true
-  · simp [h6, h7] at hb
+  · simp [h9, h6, h7] at hb
   by_cases h8 : (restPos N (nonneg ts)).length + ts.length ≠ N
-  · simp [h6, h7, h8] at hb
-  simp only [h6, h7, h8, ↓reduceIte, Bool.false_eq_true, Except.ok.injEq] at hb
+  · simp [h9, h6, h7, h8] at hb
+  simp only [h9, h6, h7, h8, ↓reduceIte, Bool.false_eq_true, Except.ok.injEq] at hb
   subst hb
   have hall : ∀ t ∈ ts, t < (N : Int) := by simpa [List.all_eq_true] using h2
   have hlt := nonneg_lt ts N hall
